@@ -19,11 +19,29 @@ from props.comps_tree import tree_case, stage1, pseudo
 from vlib import hexs
 
 
+def emptyize(m, rng, prob=0.4):
+    """the generators never draw the type empty for a leaf-list (YANG 1.1 allows it): give it to some config false
+    leaf-lists (state leaf-lists may repeat a value, so several instances stay valid)"""
+    def walk(nodes, cfg):
+        for n in nodes:
+            c = cfg and getattr(n, "config", True)
+            if n.kind == "leaf-list" and not c and not n.when and rng.random() < prob:
+                n.type = yanggen.TEmpty()
+                n.defaults = []
+            elif n.kind in ("container", "list"):
+                walk(n.children, c)
+            elif n.kind == "choice":
+                for _, ns in n.cases:
+                    walk(ns, c)
+    walk(m.nodes, True)
+    return m
+
+
 def doc_case(rng, **kw):
     for _ in range(200):
         m, ig = tree_case(rng, **kw)
         if docenc.supported(m):
-            return m, ig
+            return emptyize(m, rng), ig
     raise RuntimeError("no supported module generated")
 
 
@@ -77,7 +95,7 @@ class DocModel(Comp):
             r = results(out)
             npseudo = sum(1 for c in line.split("\t")[1:] if c.startswith("#"))
             r = r[npseudo:]
-            ans = []
+            ans = ["W=111111"]
             for (fmt, po), x in zip(PRINTS, r[4:4 + len(PRINTS)]):
                 if rc(x) != 0:
                     ans.append("%s%d print-failed" % (fmt, po))
@@ -751,6 +769,7 @@ class RoundTripMeta(oracles.RoundTrip):
         L = []
         for i in range(self.n(tier, 120, 1500, scale)):
             m, ig = gen_case(rng, meta_prob=0.35, userord=True, state=True)
+            emptyize(m, rng)
             ig.max_inst = 5
             if i % 2:
                 ig.edp = 0.0
@@ -793,8 +812,12 @@ class WellFormedX(Oracle):
             cmds = f[2:2 + nsetup]
             po = 0 if fam.startswith("op-") else SIB
             node = "t0"
-            L.append("doc\t#w %s %d\t" % (fam, nsetup) + "\t".join(cmds + ["print %s x %d" % (node, po | PRINT_SHRINK), "print %s x %d" % (node, po),
-                                                                          "print %s j %d" % (node, po | PRINT_SHRINK), "print %s j %d" % (node, po)]))
+            # opaque nodes of namespaces the context does not know cannot be named in JSON at all (and the array bookkeeping of
+            # json_print_opaq() for them runs into an assertion: see the report); JSON is printed where RoundTripX checks it
+            fj = "j" if (fam != "opaq-xml" or "dj/" in hdr[3]) else "x"
+            L.append("doc\t#w %s %d %s\t" % (fam, nsetup, fj) +
+                     "\t".join(cmds + ["print %s x %d" % (node, po | PRINT_SHRINK), "print %s x %d" % (node, po),
+                                       "print %s %s %d" % (node, fj, po | PRINT_SHRINK), "print %s %s %d" % (node, fj, po)]))
         return L
 
     def judge(self, line, out):
@@ -808,7 +831,7 @@ class WellFormedX(Oracle):
         for x in r[:nsetup]:
             if rc(x) != 0:
                 return None
-        for k, fmt in ((0, "x"), (1, "x"), (2, "j"), (3, "j")):
+        for k, fmt in ((0, "x"), (1, "x"), (2, hdr[3]), (3, hdr[3])):
             res = r[nsetup + k]
             if rc(res) != 0:
                 return (None, "print failed (%s, %s): %s" % (fam, fmt, res))
